@@ -35,6 +35,8 @@ type SH struct {
 	SP *url.SearchParams
 	Of int
 	M  []Pair // C11 list model
+	// Snap: made by SearchParams.Clone as a snapshot (not expected to follow the URL)
+	Snap bool
 }
 
 type Event struct {
@@ -344,6 +346,12 @@ func (w *World) exec(i int, op Op) (ev Event) {
 		case op.W == 3 && w.P2 != nil:
 			// the other parser resolves against a base it did not make; the result is that parser's
 			other, otherCfg := w.P2, *w.Cfg2
+			if b.Cfg.String() == w.Cfg2.String() && op.V == "fwd" {
+				// one direction only: the second parser derives from the first one's URLs, never the first
+				// from a state only the second can make
+				ev.Skipped = true
+				return
+			}
 			if b.Cfg.String() == w.Cfg2.String() {
 				other, otherCfg = w.P, w.Cfg
 				if other == nil {
@@ -472,8 +480,9 @@ func (w *World) exec(i int, op Op) (ev Event) {
 			ev.Contract = "SearchParams.Clone() returned nil"
 			return
 		}
-		w.S[op.D] = &SH{ID: op.D, SP: c, Of: sh.Of}
-		if uh := w.U[sh.Of]; uh != nil {
+		w.S[op.D] = &SH{ID: op.D, SP: c, Of: sh.Of, Snap: op.W == 1}
+		if uh := w.U[sh.Of]; uh != nil && op.W != 1 {
+			// W=1: a snapshot, kept apart from the handles that are expected to follow the URL
 			uh.SPs = append(uh.SPs, op.D)
 		}
 		ev.CreatedS = op.D
@@ -512,8 +521,36 @@ func (w *World) exec(i int, op Op) (ev Event) {
 			ev.Skipped = true
 			return
 		}
+		if op.V == "own" && sh.Of != op.H {
+			ev.Skipped = true // only lists that belong to this very URL (its handles and snapshots of them)
+			return
+		}
 		ev.Target, ev.Mut = op.H, true
 		uh.U.SetSearchParams(sh.SP)
+		if op.D != 0 {
+			// What SetSearchParams does with the handles a caller still holds (the replaced list, the
+			// list handed in) is nobody's promise: they are forgotten. The URL's list is from now on
+			// whatever SearchParams() returns.
+			if w.S[op.D] != nil {
+				return
+			}
+			for _, sid := range uh.SPs {
+				delete(w.S, sid)
+			}
+			if sh.Of == op.H {
+				delete(w.S, op.W)
+			}
+			uh.SPs = nil
+			sp := uh.U.SearchParams()
+			if sp == nil {
+				ev.Contract = "SearchParams() returned nil"
+				return
+			}
+			w.S[op.D] = &SH{ID: op.D, SP: sp, Of: op.H}
+			uh.SPs = []int{op.D}
+			uh.QW = 1
+			ev.CreatedS = op.D
+		}
 	case "pes":
 		p := w.P
 		if p == nil {
